@@ -224,6 +224,28 @@ Definition plain_attrs (a : attrs) : bool :=
 Definition tok_in_class (t : tkind) : bool :=
   match t with KLineStart _ _ | KGoToCol _ | KErrorStop => false | _ => true end.
 
+(* Combine joins the strings of the leaves of its content's results.  The proved class asks the content to be built from
+   constructs that yield only scalar tokens (strings; scalar defaults of Opt): no Group (a nested list), no list-valued
+   default, no Each, no Forward (the predicate is structural).  Such a content yields a flat list of scalars, on which
+   `_asStringList` and the `join_strings` of the reading visibly coincide.  (Outside this restriction Combine stays in the
+   reference class `in_ref_class`, compared with the implementation by correspondence.) *)
+Definition scalar_tok (t : tok) : bool := match t with TList _ | TPR _ => false | _ => true end.
+Fixpoint flat_class (e : expr) : bool :=
+  match e with
+  | Tok _ _ _ => true
+  | Nary _ _ (NEach _) _ => false
+  | Nary _ _ _ es => (fix all (l : list expr) : bool := match l with [] => true | x :: r => flat_class x && all r end) es
+  | Enh _ _ k c =>
+    match k with
+    | EPass | ESuppress | ECombine _ | EOpt None => flat_class c
+    | EOpt (Some v) => scalar_tok v && flat_class c
+    | ENot | EFollowedBy | ELookahead => true          (* they yield no token *)
+    | _ => false
+    end
+  | Rep _ _ _ b None => flat_class b
+  | _ => false
+  end.
+
 Section Class.
 Variable G : env.
 Fixpoint in_class (e : expr) : bool :=
@@ -236,6 +258,9 @@ Fixpoint in_class (e : expr) : bool :=
   | Nary a ign NMatchFirst es =>
     plain_attrs a && match ign with [] => true | _ => false end &&
     (fix all (l : list expr) : bool := match l with [] => true | x :: r => in_class x && all r end) es
+  | Nary a ign NOr es =>
+    plain_attrs a && match ign with [] => true | _ => false end &&
+    (fix all (l : list expr) : bool := match l with [] => true | x :: r => in_class x && all r end) es
   | Nary a ign (NEach info) es =>
     (* no required operand may return empty: Each.parseImpl would take it twice (Props/C01.v C01_each_once_refuted) *)
     plain_attrs a && match ign with [] => true | _ => false end &&
@@ -245,6 +270,7 @@ Fixpoint in_class (e : expr) : bool :=
     plain_attrs a && match ign with [] => true | _ => false end && in_class c &&
     match k with
     | EOpt _ | EGroup false | ESuppress | EPass => child_ok a c
+    | ECombine _ => child_ok a c && flat_class c
     | ENot | EFollowedBy | ELookahead => true
     | _ => false
     end
@@ -259,7 +285,9 @@ End Class.
 Definition env_in_class (G : env) : bool := forallb (in_class G) G.
 
 (* the (wider) class on which the reference reading `peg` is defined and compared with the implementation by the
-   correspondence check; `in_class` above is the part covered by the theorem *)
+   correspondence check; `in_class` above is the part covered by the theorem (Proofs/ClassIncl.v: in_class -> in_ref_class).
+   What it has beyond `in_class`: repetition with stop_on, and Combine over any content of the class (Group, Each, Forward
+   inside the Combine). *)
 Section RefClass.
 Variable G : env.
 Fixpoint in_ref_class (e : expr) : bool :=
